@@ -106,7 +106,7 @@ CHECKS = {
         "level": "fault_enumeration",
         "technique": "runtime monitoring: crash monitor over child processes (journal-before-apply, exit status / panic text), sentinel-based liveness of watchers, previous-state probes",
         "text": "Each child process runs one fx-assembled decision app with secrets reload, watched file-system rule provider, jwt finalizer / TLS / http_message_signatures key stores, trust store, jwt/introspection/generic authenticators, remote authorizer and contextualizer against a scripted server; the parent enumerates inputs per kind (valid corpus, truncation sweeps, bit flips, empty/cert-only/key-only/unsupported/encrypted/mismatched/cyclic-chain key stores, type-confused rule sets for every field, malformed remote documents, malformed tokens and raw TCP garbage), each journaled with fsync before it is applied. Verdicts: child death or panic text (signature = panic site), watcher stopped (four unanswered valid sentinel writes in a row), previous state lost after a rejected reload, no error response for a malformed token.",
-        "note": "fsnotify reloads are asynchronous: a single missed reaction is re-nudged and never a verdict. The trust store is only loaded at start-up in this tree (panic caught on a harness goroutine). Real S3/Kubernetes/Redis are not part of this check.",
+        "note": "fsnotify reloads are asynchronous: a single missed reaction is re-nudged and never a verdict. The trust store is only loaded at start-up in this tree (panic caught on a harness goroutine). Real S3/Kubernetes/Redis are not part of this check. Three open known findings (one per key-store kind): an encrypted key entry with an excessive PBKDF2 iteration count keeps the reload of that file busy for days; the lanes wait a 22 s horizon for it, which is the larger part of the quick tier's wall time.",
     },
     "C15": {
         "level": "exploration",
